@@ -18,6 +18,33 @@ def run(chk: Check) -> None:
     own_state(chk)
     dom_allowed_check(chk)
     atom_terminal_guard(chk)
+    terminal_hooks_cannot_fail_on_futures(chk)
+
+
+def terminal_hooks_cannot_fail_on_futures(chk: Check) -> None:
+    """The hooks that run AFTER a terminal state object has been installed (entered / terminated hooks of the base classes) run
+    inside transition_to's try: an exception there is routed to EXCEPTED with the ALLOWED test bypassed -- FINISHED -> EXCEPTED.
+    The one kind of exception these hooks can produce by themselves is InvalidStateError from resolving a future that is
+    already done / cancelled, so every future write in them must be provably on a pending (or fresh) future."""
+    import ast as _ast
+    from ..fut import WRITERS, WriterSite, classify
+    prog = chk.prog
+    proc = prog.cls('processes.Process')
+    n = 0
+    for name in ('on_entered', 'on_terminated', 'on_finished', 'on_excepted', 'on_killed'):
+        f = prog.view(proc.methods.get(name))
+        if f is None:
+            continue
+        ff = chk.ctx.facts.analyse(f)
+        for c in calls_in_func(f):
+            if isinstance(c.func, _ast.Attribute) and c.func.attr in WRITERS and c.func.attr != 'cancel':
+                n += 1
+                s_ = classify(chk.ctx, WriterSite(f, c, ff.canon.key(c.func.value), c.func.attr))
+                chk.ob('FUT-terminal-hooks', f, s_.guard in ('guarded', 'fresh'), f'{c.func.attr} on {s_.loc} in a hook that runs once the terminal state is installed is {s_.guard}: '
+                       + ('cannot raise InvalidStateError' if s_.guard in ('guarded', 'fresh') else 'if that future was already resolved or cancelled (a superseded kill / pause action is) the hook raises, '
+                          'and the failed-transition path enters EXCEPTED from the terminal state') + f'; {s_.detail}', node=c, kind='future-write-in-terminal-hook')
+    chk.units['future_writes_in_terminal_hooks'] = n
+    chk.ob('FUT-terminal-hooks', proc.qualname, True, f'{n} future write(s) in the entered/terminated hooks of Process examined', kind='scan', expr='terminal hooks')
 
 
 # ---------------------------------------------------------------------- 1. TAB-lifecycle
